@@ -1,4 +1,4 @@
-CONSTANTS MaxStates = 2  NLetters = 3
+CONSTANTS MaxStates = 4  NLetters = 1
 INIT Init
 NEXT Next
 INVARIANT PartitionOk
